@@ -9,19 +9,22 @@ Open Scope Z_scope.
 Fixpoint resets (c : content) : bool :=
   match c with
   | Numpy _ _ _ | ListOffset _ _ _ | ListA _ _ _ _ | Indexed _ _ _ | IndexedOption _ _ _ | ByteMasked _ _ _ => true
-  | Regular c' _ _ => resets c'
+  | Empty => true
+  | Regular c' _ _ | Unmasked c' | Par _ _ c' => resets c'
   | _ => false
   end.
 
-(* the fragment: 1-d NumpyArray, ListOffsetArray (offsets inside the content), ListArray and ByteMaskedArray over nodes
-   that come back whole, RegularArray of positive size, IndexedArray, IndexedOptionArray, RecordArray (tuples and keyed) *)
+(* the fragment: 1-d NumpyArray, EmptyArray, ListOffsetArray (offsets inside the content), ListArray and ByteMaskedArray over
+   nodes that come back whole, RegularArray of positive size, IndexedArray, IndexedOptionArray, UnmaskedArray, RecordArray
+   (tuples and keyed), parameters (strings, bytestrings, record names) *)
 Fixpoint frag16 (c : content) : bool :=
   match c with
   | Numpy _ shape _ => match shape with [_] => true | _ => false end
   | ListOffset _ o c' => frag16 c' && forallb (fun x => (0 <=? x) && (x <=? clen c')) o
   | ListA _ _ _ c' => frag16 c' && resets c'
   | Regular c' size _ => (0 <? size) && frag16 c'
-  | Indexed _ _ c' | IndexedOption _ _ c' => frag16 c'
+  | Empty => true
+  | Indexed _ _ c' | IndexedOption _ _ c' | Unmasked c' | Par _ _ c' => frag16 c'
   | ByteMasked _ _ c' => frag16 c' && resets c'
   | Record cs _ _ => (fix all (l : list content) : bool := match l with [] => true | x :: xs => frag16 x && all xs end) cs
   | _ => false
@@ -33,23 +36,27 @@ Proof. induction cs as [|x xs IH]; [reflexivity|]. cbn [forallb]. rewrite IH. re
 Definition efflen (t : option Z) (c : content) : Z := match t with None => clen c | Some k => k end.
 Definition trim_ok (t : option Z) (c : content) : Prop := match t with None => True | Some k => 0 <= k <= clen c end.
 
-Definition rt_at (c : content) : Prop :=
-  forall t len vs, Valid None c -> frag16 c = true -> trim_ok t c -> 0 <= len <= efflen t c -> to_list c = Ok vs ->
+Definition rt_concl (c : content) (t : option Z) (len : Z) (vs : list value) : Prop :=
   exists c', of_ftree false (to_ftree c t) len = Ok c' /\ len <= clen c' <= efflen t c /\
              to_list c' = Ok (take (clen c') vs) /\ (resets c = true -> clen c' = efflen t c).
+Definition rt_at (c : content) : Prop :=
+  forall p t len vs, Valid p c -> frag16 c = true -> trim_ok t c -> 0 <= len <= efflen t c -> to_list c = Ok vs ->
+  rt_concl c t len vs.
+(* without validity (the character buffer of a string is not checked by Valid, its shape is fixed by ParamOk) *)
+Definition rt_core (c : content) : Prop :=
+  forall t len vs, frag16 c = true -> trim_ok t c -> 0 <= len <= efflen t c -> to_list c = Ok vs -> rt_concl c t len vs.
 
 Lemma to_list_clen c vs : to_list c = Ok vs -> zlen vs = clen c /\ 0 <= clen c.
 Proof. intros H. pose proof (to_list_len c vs H). pose proof (zlen_nonneg vs). lia. Qed.
 
 (* ---------------------------------------------------------------- leaves *)
-Lemma rt_Numpy dt shape data : rt_at (Numpy dt shape data).
+Lemma rt_core_Numpy dt shape data : rt_core (Numpy dt shape data).
 Proof.
-  intros t len vs HV Hf Ht Hlen Hvs. cbn [frag16] in Hf. destruct shape as [|n [|? ?]]; try discriminate Hf.
-  apply Valid_Numpy_inv in HV as (_ & _ & HF & Hd). inversion HF as [|? ? Hn _]; subst.
-  unfold prodZ in Hd. cbn [fold_right] in Hd.
-  rewrite to_list_Numpy in Hvs. cbn [existsb] in Hvs. replace (n <? 0) with false in Hvs by lia. cbn [orb] in Hvs.
-  unfold prodZ in Hvs. cbn [fold_right] in Hvs. replace (zlen data <? n * 1) with false in Hvs by lia.
-  cbn [nest] in Hvs. injection Hvs as <-.
+  intros t len vs Hf Ht Hlen Hvs. cbn [frag16] in Hf. destruct shape as [|n [|? ?]]; try discriminate Hf.
+  rewrite to_list_Numpy in Hvs. cbn [existsb] in Hvs. destruct (n <? 0) eqn:En; [discriminate Hvs|]. cbn [orb] in Hvs.
+  unfold prodZ in Hvs. cbn [fold_right] in Hvs. destruct (zlen data <? n * 1) eqn:Ed; [discriminate Hvs|].
+  assert (Hn : 0 <= n) by lia. assert (Hd : n <= zlen data) by lia.
+  cbn [nest] in Hvs. injection Hvs as <-. unfold rt_concl.
   set (rows := match t with None => n | Some k => k end).
   assert (Hrows : 0 <= rows <= n /\ len <= rows /\ rows = efflen t (Numpy dt [n] data)).
   { unfold rows, efflen, trim_ok in *. cbn [clen] in *. destruct t; lia. }
@@ -64,6 +71,33 @@ Proof.
   unfold prodZ. cbn [fold_right]. rewrite Hz. replace (rows <? rows * 1) with false by lia. cbn [nest].
   f_equal. replace (rows * 1) with rows by lia. replace (n * 1) with n by lia.
   rewrite take_take by lia. rewrite <- map_take. rewrite take_take by lia. reflexivity.
+Qed.
+Lemma rt_Numpy dt shape data : rt_at (Numpy dt shape data).
+Proof. intros p t len vs _. apply rt_core_Numpy. Qed.
+
+Lemma rt_core_Par a r c : rt_core c -> rt_core (Par a r c).
+Proof.
+  intros IH t len vs Hf Ht Hlen Hvs. cbn [frag16] in Hf.
+  rewrite to_list_Par in Hvs. apply bind_Ok in Hvs as (cvs & Hcvs & Hvs).
+  destruct (IH t len cvs Hf Ht Hlen Hcvs) as (c1 & Hof & Hb & Hl1 & Hr).
+  exists (Par a r c1). cbn [to_ftree of_ftree]. rewrite Hof. cbn [bind]. split; [reflexivity|]. cbn [clen].
+  split; [exact Hb|]. split; [|exact Hr].
+  rewrite to_list_Par, Hl1. cbn [bind].
+  destruct a as [[]|]; first [apply mapM_take; exact Hvs | injection Hvs as <-; reflexivity].
+Qed.
+Lemma rt_Par a r c : rt_at c -> rt_at (Par a r c).
+Proof.
+  intros IH p t len vs HV Hf Ht Hlen Hvs. apply Valid_Par_inv in HV.
+  apply (rt_core_Par a r c); try assumption. intros t' len' vs' Hf' Ht' Hlen' Hvs'. exact (IH a t' len' vs' HV Hf' Ht' Hlen' Hvs').
+Qed.
+
+(* the content of a list node: valid, or the character buffer of a string *)
+Lemma child_rt p c c' : rt_at c' -> ParamOk p c -> list_content c = Some c' -> (is_strk p = false -> Valid None c') -> rt_core c'.
+Proof.
+  intros IH HP Hl Hc. destruct (is_strk p) eqn:Es.
+  - destruct (ParamOk_str p c HP Es) as (c'' & k & rn & n & d & H1 & H2 & _). rewrite Hl in H1. injection H1 as <-. subst c'.
+    apply rt_core_Par. apply rt_core_Numpy.
+  - intros t len vs. exact (IH None t len vs (Hc eq_refl)).
 Qed.
 
 (* ---------------------------------------------------------------- helpers *)
@@ -95,9 +129,10 @@ Proof. destruct o; [congruence|reflexivity]. Qed.
 
 Lemma rt_ListOffset w o c : rt_at c -> rt_at (ListOffset w o c).
 Proof.
-  intros IH t len vs HV Hf Ht Hlen Hvs.
+  intros IH p t len vs HV Hf Ht Hlen Hvs.
   cbn [frag16] in Hf. apply andb_true_iff in Hf as [Hfc Hoff].
-  apply Valid_ListOffset_inv in HV as (_ & Ho1 & Hpairs & Hc). specialize (Hc eq_refl).
+  apply Valid_ListOffset_inv in HV as (HP & Ho1 & Hpairs & Hc).
+  pose proof (child_rt p (ListOffset w o c) c IH HP eq_refl Hc) as IHc. clear IH Hc HP.
   rewrite to_list_ListOffset in Hvs. apply bind_Ok in Hvs as (cvs & Hcvs & Hvs). apply rmap_Ok in Hvs as (ls & Hcut & ->).
   destruct (to_list_clen c cvs Hcvs) as [Hzc Hc0].
   set (k := efflen t (ListOffset w o c)) in *.
@@ -112,7 +147,7 @@ Proof.
   assert (Hd : 0 <= d <= clen c).
   { assert (Hin : In d o) by (apply (In_take d (k + 1)); apply last_In'; exact Ho').
     rewrite forallb_forall in Hoff. specialize (Hoff d Hin). lia. }
-  destruct (IH None d cvs Hc Hfc I ltac:(cbn; lia) Hcvs) as (c1 & Hof & Hb & Hl1 & _). cbn [efflen] in Hb.
+  destruct (IHc None d cvs Hfc I ltac:(cbn; lia) Hcvs) as (c1 & Hof & Hb & Hl1 & _). cbn [efflen] in Hb.
   exists (ListOffset w o' c1). cbn [to_ftree of_ftree]. rewrite Eo. fold o'.
   replace (zlen o' - 1 <? len) with false by (unfold k, efflen in *; cbn [clen] in *; lia).
   rewrite (last_z_last o' 0 Ho'). cbn [bind]. fold d. rewrite Hof. cbn [bind].
@@ -145,9 +180,10 @@ Qed.
 
 Lemma rt_ListA w s e c : rt_at c -> rt_at (ListA w s e c).
 Proof.
-  intros IH t len vs HV Hf Ht Hlen Hvs.
+  intros IH p t len vs HV Hf Ht Hlen Hvs.
   cbn [frag16] in Hf. apply andb_true_iff in Hf as [Hfc Hres].
-  apply Valid_ListA_inv in HV as (_ & Hse & Hpairs & Hc). specialize (Hc eq_refl).
+  apply Valid_ListA_inv in HV as (HP & Hse & Hpairs & Hc).
+  pose proof (child_rt p (ListA w s e c) c IH HP eq_refl Hc) as IHc. clear IH Hc HP.
   rewrite to_list_ListA in Hvs. apply bind_Ok in Hvs as (cvs & Hcvs & Hvs). apply rmap_Ok in Hvs as (ls & Hcut & ->).
   destruct (to_list_clen c cvs Hcvs) as [Hzc Hc0].
   unfold cut2 in Hcut. replace (zlen e <? zlen s) with false in Hcut by lia.
@@ -165,7 +201,7 @@ Proof.
   assert (Hneed : 0 <= need <= clen c).
   { apply max_or0_bounds; [lia|]. apply live_stops_bounds. rewrite zip_take, Hzip. apply Forall_forall. intros ab Hin.
     apply In_take in Hin. apply In_take in Hin. rewrite Forall_forall in Hpairs. exact (Hpairs ab Hin). }
-  destruct (IH None need cvs Hc Hfc I ltac:(cbn; lia) Hcvs) as (c1 & Hof & Hb & Hl1 & Hr). cbn [efflen] in Hb, Hr.
+  destruct (IHc None need cvs Hfc I ltac:(cbn; lia) Hcvs) as (c1 & Hof & Hb & Hl1 & Hr). cbn [efflen] in Hb, Hr.
   specialize (Hr Hres). rewrite Hr in Hl1. rewrite take_all in Hl1 by lia.
   exists (ListA w s' e' c1). cbn [to_ftree of_ftree]. fold s' e'.
   replace (zlen s' <? len) with false by (unfold k, efflen in *; cbn [clen] in *; lia).
@@ -183,7 +219,7 @@ Qed.
 
 Lemma rt_Indexed w ix c : rt_at c -> rt_at (Indexed w ix c).
 Proof.
-  intros IH t len vs HV Hf Ht Hlen Hvs. cbn [frag16] in Hf.
+  intros IH p t len vs HV Hf Ht Hlen Hvs. cbn [frag16] in Hf.
   apply Valid_Indexed_inv in HV as (Hix & _ & Hc).
   rewrite to_list_Indexed in Hvs. apply bind_Ok in Hvs as (cvs & Hcvs & Hvs).
   destruct (to_list_clen c cvs Hcvs) as [Hzc Hc0].
@@ -201,7 +237,7 @@ Proof.
     pose proof (max_or0_nonempty_in ix' Hne) as Hin. rewrite Forall_forall in Hix'. pose proof (Hix' _ Hin).
     split; [lia|]. apply Forall_forall. intros i Hi. pose proof (max_or0_ge ix' i Hi). lia. }
   destruct Hneed as [Hneed Hlt].
-  destruct (IH None need cvs Hc Hf I ltac:(cbn; lia) Hcvs) as (c1 & Hof & Hb & Hl1 & _). cbn [efflen] in Hb.
+  destruct (IH None None need cvs Hc Hf I ltac:(cbn; lia) Hcvs) as (c1 & Hof & Hb & Hl1 & _). cbn [efflen] in Hb.
   exists (Indexed w ix' c1). cbn [to_ftree of_ftree]. rewrite Eix. fold ix'.
   replace (zlen ix' <? len) with false by (unfold k, efflen in *; cbn [clen] in *; lia).
   fold need. rewrite Hof. cbn [bind].
@@ -213,7 +249,7 @@ Qed.
 
 Lemma rt_IndexedOption w ix c : rt_at c -> rt_at (IndexedOption w ix c).
 Proof.
-  intros IH t len vs HV Hf Ht Hlen Hvs. cbn [frag16] in Hf.
+  intros IH p t len vs HV Hf Ht Hlen Hvs. cbn [frag16] in Hf.
   apply Valid_IndexedOption_inv in HV as (Hix & _ & Hc).
   rewrite to_list_IndexedOption in Hvs. apply bind_Ok in Hvs as (cvs & Hcvs & Hvs).
   destruct (to_list_clen c cvs Hcvs) as [Hzc Hc0].
@@ -231,7 +267,7 @@ Proof.
     pose proof (max_or0_nonempty_in ix' Hne) as Hin. rewrite Forall_forall in Hix'. pose proof (Hix' _ Hin).
     split; [lia|]. apply Forall_forall. intros i Hi. pose proof (max_or0_ge ix' i Hi). lia. }
   destruct Hneed as [Hneed Hlt].
-  destruct (IH None need cvs Hc Hf I ltac:(cbn; lia) Hcvs) as (c1 & Hof & Hb & Hl1 & _). cbn [efflen] in Hb.
+  destruct (IH None None need cvs Hc Hf I ltac:(cbn; lia) Hcvs) as (c1 & Hof & Hb & Hl1 & _). cbn [efflen] in Hb.
   exists (IndexedOption w ix' c1). cbn [to_ftree of_ftree]. rewrite Eix. fold ix'.
   replace (zlen ix' <? len) with false by (unfold k, efflen in *; cbn [clen] in *; lia).
   fold need. rewrite Hof. cbn [bind].
@@ -244,9 +280,10 @@ Qed.
 
 Lemma rt_Regular c size zl : rt_at c -> rt_at (Regular c size zl).
 Proof.
-  intros IH t len vs HV Hf Ht Hlen Hvs.
+  intros IH p t len vs HV Hf Ht Hlen Hvs.
   cbn [frag16] in Hf. apply andb_true_iff in Hf as [Hs Hfc]. assert (Hs' : 0 < size) by lia. clear Hs.
-  apply Valid_Regular_inv in HV as (_ & _ & _ & Hc). specialize (Hc eq_refl).
+  apply Valid_Regular_inv in HV as (HP & _ & _ & Hc).
+  pose proof (child_rt p (Regular c size zl) c IH HP eq_refl Hc) as IHc. clear IH Hc HP.
   rewrite to_list_Regular in Hvs. apply bind_Ok in Hvs as (cvs & Hcvs & Hvs). apply rmap_Ok in Hvs as (ch & Hch & ->).
   destruct (to_list_clen c cvs Hcvs) as [Hzc Hc0].
   unfold chunks in Hch. replace (size <? 0) with false in Hch by lia. replace (size =? 0) with false in Hch by lia.
@@ -263,7 +300,7 @@ Proof.
   { rewrite Hec. unfold k, efflen in *. rewrite Ecl in *. destruct t; nia. }
   assert (Hle : efflen tc c <= clen c).
   { rewrite Hec. unfold k, efflen, trim_ok in *. rewrite Ecl in *. destruct t; nia. }
-  destruct (IH tc (len * size) cvs Hc Hfc Htc Hnd Hcvs) as (c1 & Hof & Hb & Hl1 & Hr).
+  destruct (IHc tc (len * size) cvs Hfc Htc Hnd Hcvs) as (c1 & Hof & Hb & Hl1 & Hr).
   set (m := clen c1) in *.
   assert (Hm0 : 0 <= m <= zlen cvs) by lia.
   exists (Regular c1 size len). cbn [to_ftree of_ftree]. fold tc. rewrite Hof. cbn [bind].
@@ -290,7 +327,7 @@ Qed.
 
 Lemma rt_ByteMasked m vw c : rt_at c -> rt_at (ByteMasked m vw c).
 Proof.
-  intros IH t len vs HV Hf Ht Hlen Hvs.
+  intros IH p t len vs HV Hf Ht Hlen Hvs.
   cbn [frag16] in Hf. apply andb_true_iff in Hf as [Hfc Hres].
   apply Valid_ByteMasked_inv in HV as (Hmc & _ & Hc).
   rewrite to_list_ByteMasked in Hvs. apply bind_Ok in Hvs as (cvs & Hcvs & Hvs).
@@ -302,7 +339,7 @@ Proof.
   assert (Hzm : zlen m' = k) by (unfold m'; rewrite zlen_take_min; lia).
   assert (Htc : trim_ok t c) by (unfold trim_ok, k, efflen in *; cbn [clen] in *; destruct t; [lia|exact I]).
   assert (Hec : k <= efflen t c <= clen c) by (unfold k, efflen, trim_ok in *; cbn [clen] in *; destruct t; lia).
-  destruct (IH t len cvs Hc Hfc Htc ltac:(lia) Hcvs) as (c1 & Hof & Hb & Hl1 & Hr). specialize (Hr Hres).
+  destruct (IH None t len cvs Hc Hfc Htc ltac:(lia) Hcvs) as (c1 & Hof & Hb & Hl1 & Hr). specialize (Hr Hres).
   exists (ByteMasked m' vw c1). cbn [to_ftree of_ftree]. rewrite Em. fold m'.
   replace (zlen m' <? len) with false by (unfold k, efflen in *; cbn [clen] in *; lia).
   rewrite Hof. cbn [bind]. replace (clen c1 <? zlen m') with false by lia.
@@ -329,7 +366,7 @@ Proof.
   - cbn [mapM] in Hvss. apply bind_Ok in Hvss as (v & Hv & Hvss). apply bind_Ok in Hvss as (vs' & Hvs' & Hvss). injection Hvss as <-.
     inversion HV as [|? ? HVx HVxs]; subst. cbn [forallb] in Hf. apply andb_true_iff in Hf as [Hfx Hfxs].
     inversion Ht as [|? ? [Htx Hlx] Htxs]; subst.
-    destruct (Hx t' len v HVx Hfx Htx Hlx Hv) as (c1 & Hof & Hb & Hl1 & _).
+    destruct (Hx None t' len v HVx Hfx Htx Hlx Hv) as (c1 & Hof & Hb & Hl1 & _).
     destruct (IH vs' HVxs Hfxs Htxs Hvs') as (cs1 & vss1 & Hofs & Hbs & Hls & HF2).
     exists (c1 :: cs1), (take (clen c1) v :: vss1). cbn [to_ftree_all of_all_rec mapM]. rewrite Hof, Hofs, Hl1, Hls. cbn [bind].
     repeat split.
@@ -346,7 +383,7 @@ Qed.
 
 Lemma rt_Record cs ks n : Forall rt_at cs -> rt_at (Record cs ks n).
 Proof.
-  intros IH t len vs HV Hf Ht Hlen Hvs.
+  intros IH p t len vs HV Hf Ht Hlen Hvs.
   cbn [frag16] in Hf. rewrite frag16_all in Hf.
   apply Valid_Record_inv in HV as (Hn & Hlens & Hcs).
   rewrite to_list_Record, all_lists_mapM in Hvs. apply bind_Ok in Hvs as (vss & Hvss & Hvs).
@@ -378,48 +415,54 @@ Proof.
 Qed.
 
 (* ---------------------------------------------------------------- assembling *)
+Lemma rt_Unmasked c : rt_at c -> rt_at (Unmasked c).
+Proof.
+  intros IH p t len vs HV Hf Ht Hlen Hvs. cbn [frag16] in Hf. apply Valid_Unmasked_inv in HV as (_ & Hc).
+  rewrite to_list_Unmasked in Hvs.
+  destruct (IH None t len vs Hc Hf Ht Hlen Hvs) as (c1 & Hof & Hb & Hl1 & Hr).
+  exists (Unmasked c1). cbn [to_ftree of_ftree]. rewrite Hof. cbn [bind]. split; [reflexivity|]. cbn [clen].
+  split; [exact Hb|]. split; [rewrite to_list_Unmasked; exact Hl1|exact Hr].
+Qed.
+Lemma rt_Empty : rt_at Empty.
+Proof.
+  intros p t len vs _ _ Ht Hlen Hvs. cbn in Hvs. injection Hvs as <-.
+  assert (len = 0) by (unfold efflen, trim_ok in *; cbn [clen] in *; destruct t; lia). subst len.
+  exists Empty. cbn [to_ftree of_ftree]. split; [reflexivity|]. cbn [clen]. unfold efflen, trim_ok in *. cbn [clen] in *.
+  split; [destruct t; lia|]. split; [reflexivity|]. intros _. destruct t; lia.
+Qed.
+
 Lemma rt_all c : rt_at c.
 Proof.
   induction c using content_ind'.
   - apply rt_Numpy.
-  - intros t len vs _ Hf. discriminate Hf.
+  - apply rt_Empty.
   - apply rt_ListOffset; assumption.
   - apply rt_ListA; assumption.
   - apply rt_Regular; assumption.
   - apply rt_Indexed; assumption.
   - apply rt_IndexedOption; assumption.
   - apply rt_ByteMasked; assumption.
-  - intros t len vs _ Hf. discriminate Hf.
-  - intros t len vs _ Hf. discriminate Hf.
-  - intros t0 len vs _ Hf. discriminate Hf.
+  - intros p t len vs _ Hf. discriminate Hf.
+  - apply rt_Unmasked; assumption.
+  - intros p t0 len vs _ Hf. discriminate Hf.
   - apply rt_Record; assumption.
-  - intros t len vs _ Hf. discriminate Hf.
-Qed.
-
-Lemma frag16_no_par c : frag16 c = true -> no_par c = true.
-Proof.
-  induction c using content_ind'; cbn [frag16 no_par]; try discriminate; auto.
-  - intros E. apply andb_true_iff in E as [E _]. auto.
-  - intros E. apply andb_true_iff in E as [E _]. auto.
-  - intros E. apply andb_true_iff in E as [_ E]. auto.
-  - intros E. apply andb_true_iff in E as [E _]. auto.
-  - induction H as [|x xs Hx _ IH]; [reflexivity|]. intros E. apply andb_true_iff in E as [E1 E2].
-    rewrite (Hx E1). cbn. exact (IH E2).
+  - apply rt_Par; assumption.
 Qed.
 
 (** from_buffers(to_buffers(c)) reproduces c on the fragment: it succeeds, and the result has the same value
     (to_list), the same type and the same length.
     FULL STATEMENT (not proved, and false for the pinned code, see [buffers_roundtrip_refuted]):
       forall c, Valid None c -> exists c', from_buffers (to_buffers c) = Ok c' /\ to_list c' = to_list c /\ type_of c' = type_of c.
-    Missing from the fragment: n-d NumpyArray, EmptyArray, BitMaskedArray, UnmaskedArray, UnionArray, parameters (strings),
-    RegularArray of size 0, ListArray / ByteMaskedArray whose content is a RecordArray (possibly inside RegularArrays),
-    offsets beyond the content for all-empty lists. *)
-Theorem buffers_roundtrip_partial_thm c : Valid None c -> frag16 c = true ->
+    [chars_ok]: the character buffers of strings are sound (1-d uint8 data as long as its shape says; Valid does not look
+    into them).  Missing from the fragment: n-d NumpyArray, BitMaskedArray, UnionArray, RegularArray of size 0,
+    ListArray / ByteMaskedArray whose content is a RecordArray (possibly inside RegularArrays, UnmaskedArrays), offsets
+    beyond the content for all-empty lists. *)
+Theorem buffers_roundtrip_partial_thm c : Valid None c -> frag16 c = true -> chars_ok c = true ->
   exists c', from_buffers (to_buffers c) = Ok c' /\ to_list c' = to_list c /\ type_of c' = type_of c /\ clen c' = clen c.
 Proof.
-  intros HV Hf. destruct (valid_to_list_total_nopar c None HV (frag16_no_par c Hf)) as (vs & Hvs).
+  intros HV Hf Hch. destruct (valid_to_list_total_partial c None HV Hch) as (vs & Hvs).
   destruct (to_list_clen c vs Hvs) as [Hz Hc].
-  destruct (rt_all c None (clen c) vs HV Hf I ltac:(cbn; lia) Hvs) as (c' & Hof & Hb & Hl & _). cbn [efflen] in Hb.
+  destruct (rt_all c None None (clen c) vs HV Hf I ltac:(cbn; lia) Hvs) as (c' & Hof & Hb & Hl & _). cbn [efflen] in Hb.
   exists c'. unfold from_buffers. rewrite from_buffers_is_of_ftree. split; [exact Hof|].
   split; [rewrite Hl, Hvs; f_equal; apply take_all; lia|]. split; [|lia].
   eapply from_buffers_type_thm. rewrite from_buffers_is_of_ftree. exact Hof.
@@ -429,12 +472,13 @@ Qed.
 Example buffers_roundtrip_ex :
   let c := Record [ListOffset I32 [1; 3; 3; 4] (Numpy DInt64 [6] [DZ 9; DZ 1; DZ 2; DZ 3; DZ 4; DZ 7]);
                    IndexedOption I64 [2; -1; 0] (Regular (Numpy DFloat64 [7] [DZ 1; DZ 2; DZ 3; DZ 4; DZ 5; DZ 6; DNaN]) 2 0);
-                   ByteMasked [1; 0; 1; 1] true (ListA U32 [3; 0; 0; 1] [5; 0; 0; 2; 9] (Numpy DUInt8 [5] [DZ 1; DZ 2; DZ 3; DZ 4; DZ 5]))]
-                  (Some [[120]; [121]; [122]]) 3 in
-  validb None c = true /\ frag16 c = true /\
+                   ByteMasked [1; 0; 1; 1] true (ListA U32 [3; 0; 0; 1] [5; 0; 0; 2; 9] (Numpy DUInt8 [5] [DZ 1; DZ 2; DZ 3; DZ 4; DZ 5]));
+                   Par (Some AString) None (ListOffset I64 [1; 3; 3; 4; 6] (Par (Some AChar) None (Numpy DUInt8 [6] [DZ 0; DZ 104; DZ 105; DZ 33; DZ 97; DZ 0])))]
+                  (Some [[120]; [121]; [122]; [115]]) 3 in
+  validb None c = true /\ frag16 c = true /\ chars_ok c = true /\
   exists c', from_buffers (to_buffers c) = Ok c' /\ to_list c' = to_list c /\ c' <> c.
 Proof.
-  cbv zeta. split; [vm_compute; reflexivity|]. split; [vm_compute; reflexivity|].
+  cbv zeta. split; [vm_compute; reflexivity|]. split; [vm_compute; reflexivity|]. split; [vm_compute; reflexivity|].
   eexists. split; [vm_compute; reflexivity|]. split; [vm_compute; reflexivity|]. discriminate.
 Qed.
 
